@@ -8,14 +8,16 @@ current state leaves the state unchanged, so "every schedule" is "every `List Ev
 
   * `taskStep i r`  task `i` takes one scheduler step; `r` says what *user code* does on that step
                     (`cont` = reaches another await point, `fin o` = ends with outcome `o`: return / raise
-                    Exception / raise BaseException / raise CancelledError).  A pending cancellation is delivered
+                    Exception / raise BaseException / raise CancelledError — also on its own, with no cancellation
+                    pending — / raise ExceptionGroup / raise a BaseExceptionGroup that is not an ExceptionGroup).
+                    A pending cancellation is delivered
                     on that step; inside `_run()` the user code may react to it in any way (`r` is free), inside
                     the library code (`_delay_if_restart`, before the first step) it ends the task as cancelled.
   * `start | cancel | addTask | call stop | call wait`   the public API, called at any instant.
   * `wake c`        call `c` resumes from `asyncio.wait(batch)` — enabled once the whole batch is done.
   * `advance d`     the clock moves on.
 
-Constants, the restart guard, the `except` clauses and the shape of the `wait()` loop come from
+Constants, the restart guard, the `except` clauses (with the error kinds each one catches) and the shape of the `wait()` loop come from
 `Frequenz.Extracted.Actor` (regenerated from the source on every run).  Ghost fields (`hist`, `dropped`, `reaped`,
 `nAtFin`) record history for the theorems and the correspondence check; they never influence a transition.
 Core only (no Mathlib).
@@ -25,23 +27,45 @@ import Frequenz.Extracted.Actor
 
 namespace Actor
 
-open Extracted.Actor (Action handlers restartAllowed delayApplies restartDelayUs)
+open Extracted.Actor (Action ExcKind handlers restartAllowed delayApplies restartDelayUs)
 
-/-- How one invocation of `_run()` (or a plain task) ends. -/
-inductive Outcome | ret | exc | baseExc | cancelled
+/-- How one invocation of `_run()` (or a plain task) ends: it returns, or raises an error of one of the kinds of
+`Extracted.Actor.ExcKind` — a plain `Exception`, a `BaseException` outside `Exception` (SystemExit-, KeyboardInterrupt-like,
+user classes), `asyncio.CancelledError` (delivered or raised by the code itself), an `ExceptionGroup`, or a
+`BaseExceptionGroup` that is not an `ExceptionGroup` (e.g. a non-`Exception` error of a child of a `TaskGroup`). -/
+inductive Outcome | ret | exc | baseExc | cancelled | excGroup | baseGroup
 deriving DecidableEq, Repr, Inhabited
 
-/-- `isinstance(error, cls)` for the three classes named in `_run_loop`'s `except` clauses. -/
-def Outcome.isInstance (o : Outcome) (cls : String) : Bool :=
-  match o with
-  | .ret => false
-  | .exc => cls == "Exception" || cls == "BaseException"
-  | .baseExc => cls == "BaseException"
-  | .cancelled => cls == "CancelledError" || cls == "BaseException"
+/-- The kind of the raised error (`none`: a normal return). -/
+def Outcome.kind? : Outcome → Option ExcKind
+  | .ret => none
+  | .exc => some .exc
+  | .baseExc => some .baseExc
+  | .cancelled => some .cancelled
+  | .excGroup => some .excGroup
+  | .baseGroup => some .baseGroup
+
+/-- `isinstance(error, <classes of an except clause>)`, with the clause given by the kinds it catches (extracted). -/
+def Outcome.isCaughtBy (o : Outcome) (ks : List ExcKind) : Bool :=
+  match o.kind? with
+  | none => false
+  | some k => ks.contains k
 
 /-- First `except` clause (source order) that catches `o`. -/
-def handlerFor (hs : List (String × Action)) (o : Outcome) : Option Action :=
-  (hs.find? (fun h => o.isInstance h.1)).map (·.2)
+def handlerFor (hs : List (List ExcKind × Action)) (o : Outcome) : Option Action :=
+  (hs.find? (fun h => o.isCaughtBy h.1)).map (·.2)
+
+/-- The property's notion of a FAILURE of the run logic: it raised an `Exception` (a plain one or an `ExceptionGroup`).
+Returns, cancellations and every other `BaseException` (incl. a `BaseExceptionGroup` with a non-`Exception` member)
+are not failures.  This is the specification side; `restartsOn` below is what the source says. -/
+def Outcome.isFailure : Outcome → Bool
+  | .exc => true
+  | .excGroup => true
+  | _ => false
+
+/-- Does `_run_loop` dispatch outcome `o` to its restarting `except` clause?  A function of the outcome kind, computed
+from the extracted clauses (source order, first match). -/
+def restartsOn (o : Outcome) : Bool := handlerFor handlers o == some .restartOrReraise
 
 inductive Next | finish (o : Outcome) | restart
 deriving DecidableEq, Repr
@@ -394,6 +418,8 @@ def propagated (o : Outcome) : Option Outcome :=
   | .cancelled => if Extracted.Actor.caSwallowsCancelled then none else some .cancelled
   | .exc => some .exc
   | .baseExc => some .baseExc
+  | .excGroup => some .excGroup
+  | .baseGroup => some .baseGroup
 
 def step (s : St) (e : Ev) : St :=
   match e with
